@@ -187,8 +187,12 @@ func (d *disconnectHandler) handleDisconnect() {
 
 // handleGracePeriodExpired is called when grace period expires
 func (d *disconnectHandler) handleGracePeriodExpired() {
+	// The handler's mutex only protects the timer bookkeeping. It must not be
+	// held while the election mutex is taken or the OnDemote callback runs:
+	// Stop and the reconnect handler take the two mutexes in the opposite order.
 	d.mu.Lock()
-	defer d.mu.Unlock()
+	disconnectedAt := d.disconnectedAt
+	d.mu.Unlock()
 
 	if d.election.connectionMonitor != nil {
 		if d.election.connectionMonitor.Status() != ConnectionStatusDisconnected {
@@ -204,27 +208,17 @@ func (d *disconnectHandler) handleGracePeriodExpired() {
 	// Still disconnected, demote if still leader
 	if d.election.isLeader.Load() {
 		log := d.election.getLogger()
-		disconnectedDuration := time.Since(d.disconnectedAt)
+		disconnectedDuration := time.Since(disconnectedAt)
 		log.Error("demoting_due_to_connection_loss",
 			append(d.election.logWithContext(d.election.ctx),
 				zap.Duration("disconnected_duration", disconnectedDuration),
 			)...,
 		)
 
-		d.election.becomeFollower()
-
-		d.election.mu.RLock()
-		onDemote := d.election.onDemote
-		d.election.mu.RUnlock()
-
-		if onDemote != nil {
-			log.Info("leader_demoted",
-				append(d.election.logWithContext(d.election.ctx),
-					zap.String("reason", "connection_loss"),
-				)...,
-			)
-			onDemote()
+		if !d.election.becomeFollower() {
+			return
 		}
+		d.election.runOnDemote("connection_loss")
 	}
 }
 
@@ -335,9 +329,7 @@ func (e *kvElection) verifyLeadershipAfterReconnect() {
 }
 
 func (e *kvElection) handleReconnectVerificationFailed(err error) {
-	e.mu.Lock()
-	defer e.mu.Unlock()
-
+	// Must not hold e.mu here: becomeFollower takes it.
 	if e.isLeader.Load() {
 		log := e.getLogger()
 		log.Error("demoting_due_to_reconnect_verification_failure",
@@ -347,19 +339,9 @@ func (e *kvElection) handleReconnectVerificationFailed(err error) {
 			)...,
 		)
 
-		e.becomeFollower()
-
-		e.mu.RLock()
-		onDemote := e.onDemote
-		e.mu.RUnlock()
-
-		if onDemote != nil {
-			log.Info("leader_demoted",
-				append(e.logWithContext(e.ctx),
-					zap.String("reason", "reconnect_verification_failed"),
-				)...,
-			)
-			onDemote()
+		if !e.becomeFollower() {
+			return
 		}
+		e.runOnDemote("reconnect_verification_failed")
 	}
 }
